@@ -29,6 +29,9 @@ func taskAlphabet() []requests.SigningTask {
 		{MessageID: "t-same-a", File: "file with spaces.txt", Payload: []byte("same payload")},
 		{MessageID: "t-same-b", File: "файл-юникод.txt", Payload: []byte("same payload")},
 		{MessageID: "t-emptyname", File: "", Payload: []byte("no file name")},
+		// identifiers with blanks around them (a file name that begins with a wide blank; a typed one)
+		{MessageID: "\u3000t-wide-blank-in-front\u00a0", File: "\u3000blank.txt", Payload: []byte("identifier with unicode blanks around it")},
+		{MessageID: " t-ascii-blanks-around\t", File: " x ", Payload: []byte("identifier with ascii blanks around it")},
 		{MessageID: "t-emptypayload", File: "empty", Payload: []byte{}},
 		{MessageID: "r-empty-end", RangeStart: 18632, RangeEnd: 18632},
 		{MessageID: "r-last", RangeStart: 18631, RangeEnd: 18632},
